@@ -82,6 +82,13 @@ def run(R, env):
     R.rule("C17.R3", "UnstakeRequests: prefix of the by_user index with the user argument, full range, ascending, keeping the Ok records; the index is (user, batch_id); the map is mutated only through the IndexedMap API")
     R.assume("completeness over arbitrary stores rests on cw-storage-plus range/index semantics (trusted); `every matching batch exactly once` is not decided as a statement about stores")
     pagers = [b for b in prog.fn_bodies(CRATE) if is_pager(prog, b)]
+    if len(pagers) != 1:
+        # pagination spread over several generic functions (bounds / scan / page helpers returning
+        # iterators): the rules below model ONE helper that ranges, filters, counts and collects.
+        from engine.analysis import reachable_bodies as _rb2
+        spread = [b.key for b in prog.fn_bodies(CRATE) if b.kind == "fn" and any("cw_storage_plus::Map<" in b.local_ty(i) for i in range(1, b.nargs + 1)) and any(any((call_name(t_) or "") == "cw_storage_plus::Map::range" for _, t_ in prog.bodies[k_].calls()) for k_ in _rb2(prog, [b.key]))]
+        if len(spread) >= 2:
+            R.set_undecided(["C17.R1", "C17.R2"], "pagination is spread over several generic helpers (%s); only a single range-filter-count-collect helper is modelled" % ", ".join(k.split("::")[-1] for k in spread[:4]))
     R.ob("C17.R1", "one-pagination-helper", len(pagers) == 1, "pagination helpers found: %s" % [b.key for b in pagers], fn="staking::helpers")
     for b in pagers:
         c = Ctx(b)
@@ -165,6 +172,9 @@ def run(R, env):
     q = prog.body("staking::contract::query")
     if q is None or not pagers:
         R.ob("C17.R2", "query-entry", False, "no query entry point / helper", fn="staking::contract::query")
+        R.clear_undecided(["C17.R1", "C17.R2"])
+        if q is not None:
+            unstake_index_rules(R, env, prog)
         return
     pk = pagers[0].key
     qc = Ctx(q)
@@ -275,6 +285,13 @@ def run(R, env):
             R.ob("C17.R2", "BatchesByIds:loads-each-id", okl, "per-id load", loc=c.body.loc(lbi), fn=c.body.key)
             R.ob("C17.R2", "BatchesByIds:keeps-exactly-the-Ok-loads", okk, "the loop does not keep exactly the batches whose load succeeded", loc=c.body.loc(lbi), fn=c.body.key)
     R.ob("C17.R2", "BatchesByIds:shape", found_ids, "BatchesByIds is not ids.map(load).filter_map(ok)", fn="staking::contract::query")
+    R.clear_undecided(["C17.R1", "C17.R2"])
+    unstake_index_rules(R, env, prog)
+
+
+def unstake_index_rules(R, env, prog):
+    q = prog.body("staking::contract::query")
+    qc = Ctx(q)
     # ------------------------------------------------------------ R3
     found_ur = False
     for c, path in inline_walk(prog, qc, 3):
@@ -338,6 +355,8 @@ def run(R, env):
                 res = Terms(prog.body(a[0][1]), params={1: ("rec",)}).return_term()
             good = res is not None and res[0] == "tuple" and len(res[1]) == 2 and res[1][0] == ("field", ("rec",), "user") and res[1][1] == ("field", ("rec",), "batch_id")
             R.ob("C17.R3", "index-function-is-(user,batch_id)", good, "index function yields %s" % fmt(res or ("none",))[:100], loc=b.loc(bi), fn=b.key)
+
+
 
 
 def _all_paths_contain(t, want, _memo=None):
